@@ -210,12 +210,21 @@ func NewWorld(t *testing.T, kind string, tp int64, opt string, ska, skb int64) *
 	// prefix matching), and ibctesting already gives them different channel ids: a handler that mixes up source and
 	// destination identifiers cannot go unnoticed
 	w.path.EndpointB.ChannelConfig.PortID = "mockx"
+	// channel identifiers: different on the two ends, and the same in every process that executes this schedule
+	// (ibctesting's own uniqueness counter is process-global, which would make runs depend on what ran before)
+	w.path.DisableUniqueChannelIDs()
+	setupChannel := func() {
+		w.path.SetupConnections()
+		w.ch["A"].App.GetIBCKeeper().ChannelKeeper.SetNextChannelSequence(w.ch["A"].GetContext(), 1)
+		w.ch["B"].App.GetIBCKeeper().ChannelKeeper.SetNextChannelSequence(w.ch["B"].GetContext(), 2)
+		w.path.CreateChannels()
+	}
 	switch kind {
 	case "UNORDERED":
-		w.path.Setup()
+		setupChannel()
 	case "ORDERED":
 		w.path.SetChannelOrdered()
-		w.path.Setup()
+		setupChannel()
 	case "V2":
 		if opt != "sameids" {
 			// give the two light clients different identifiers (chain-local ids need not differ, but a pair
